@@ -2,6 +2,7 @@ import ExprModel.Drv.Arith
 import ExprModel.Drv.Code
 import ExprModel.Drv.Determinism
 import ExprModel.Drv.Lex
+import ExprModel.Drv.Opt
 import ExprModel.Drv.Parse
 import ExprModel.Drv.Source
 import ExprModel.Drv.Spec
@@ -25,7 +26,8 @@ def handlers : List (String × (List Sexp → Sexp)) :=
   Drv.walkHandlers ++
   Drv.typesHandlers ++
   Drv.srcDefectsHandlers ++
-  Drv.determinismHandlers
+  Drv.determinismHandlers ++
+  Drv.optHandlers
 
 def dispatch (req : Sexp) : Sexp :=
   match req with
